@@ -9,8 +9,8 @@ from typing import Any, Dict, Iterable, List, Optional
 from unittest import mock
 
 from harness.core import Case, Check, Finding, call, canon
-from harness.props.c17 import (ALPHA, BREAK_SETS, class_table, enum_strings, export_detector, gen_corpus,
-                               make_detector, rand_line, random_tables)
+from harness.props.c17 import (ALPHA, BREAK_SETS, DEFAULT_POOL, class_table, eff_B, enum_strings, export_detector,
+                               gen_corpus, generated_c17, make_detector, rand_line, random_tables, wbc_kw)
 
 
 def _real():
@@ -18,6 +18,80 @@ def _real():
     from pagexml.helper import pagexml_helper, text_helper
     from pagexml.analysis import text_stats
     return pdm, pagexml_helper, text_helper, text_stats
+
+
+# ---------------------------------------------------------------------------------------
+# constants regenerated from the source (read with `ast` on every run, never imported)
+# ---------------------------------------------------------------------------------------
+
+PH = 'pagexml/helper/pagexml_helper.py'
+
+
+def generated_c16() -> Dict[str, str]:
+    """Generated/C16.lean: the „ literals of make_text_region_text, the blanks of make_line_text, the hyphen
+    and the PMI threshold of line_ends_with_word_break, and the defaults of make_line_text,
+    make_text_region_text and merge_lines"""
+    from harness import translate as tr
+    from fractions import Fraction
+    E = tr.TranslateError
+    fn = 'make_text_region_text'
+    q_strip = tr.one_char(tr.literal_in_x(PH, fn, 'prev_line_text.startswith(_S0)', '_S0'), 'prefix that is stripped')
+    q_test = tr.one_char(tr.literal_in_x(PH, fn, '_S0 in word_break_chars', '_S0'), 'prefix tested as break character')
+    q_end = tr.one_char(tr.literal_in_x(PH, fn, 'end_word.endswith(_S0)', '_S0'), 'suffix of the end word')
+    q_start = tr.one_char(tr.literal_in_x(PH, fn, 'curr_line.text.startswith(_S0)', '_S0'), 'prefix of the next line')
+    # the break characters travel by name to the functions called per line pair
+    for callee, pos, n in (('get_line_words', 1, 2), ('determine_word_break', 3, 1), ('make_line_text', 4, 1)):
+        if tr.call_argument(PH, fn, callee, 'word_break_chars', pos, min_calls=n) != ('NAME', 'word_break_chars'):
+            raise E(f'{fn} does not pass word_break_chars on to {callee}')
+    # make_line_text
+    detach_blank = tr.literal_in_x(PH, 'make_line_text', 'line_text[-2] != _S0', '_S0')
+    pad_before, pad_after = tr.fstring_around(PH, 'make_line_text', 'line_text[-1]')[0]
+    line_pad = tr.literal_in_x(PH, 'make_line_text', 'line_text + _S0', '_S0')
+    # line_ends_with_word_break
+    hyphen = tr.literal_in_x(PH, 'line_ends_with_word_break', 'curr_line.text[-1] == _S0', '_S0')
+    pmi = tr.as_fraction(tr.literal_in_x(PH, 'line_ends_with_word_break', 'pmi > _N0', '_N0'))
+    if pmi < 0:
+        raise E(f'negative PMI threshold {pmi}')
+    # defaults
+    d_line = tr.char_collection_default(PH, 'make_line_text', 'word_break_chars')
+    d_text = tr.char_collection_default(PH, fn, 'word_break_chars')
+    d_wb = tr.str_default(PH, 'merge_lines', 'word_break_char')
+    d_remove = tr.bool_default(PH, 'merge_lines', 'remove_word_break')
+    cl, ch = tr.lean_char_list, tr.lean_char_lit
+    body = tr.HEADER.format(
+        src=f'{PH}: the „ literals of make_text_region_text, the blanks of make_line_text, the hyphen and the PMI '
+            f'threshold of line_ends_with_word_break, the defaults of make_line_text, make_text_region_text, '
+            f'merge_lines') + (
+        'namespace Pagexml.Generated.C16\n\n'
+        '/-- `S` of `prev_line_text.startswith(S)` in make_text_region_text (the prefix that is cut off) -/\n'
+        f'def quoteStrip : Char := {ch(q_strip)}\n\n'
+        '/-- `S` of `S in word_break_chars` in make_text_region_text -/\n'
+        f'def quoteTested : Char := {ch(q_test)}\n\n'
+        '/-- `S` of `end_word.endswith(S)` in make_text_region_text -/\n'
+        f'def quoteEnd : Char := {ch(q_end)}\n\n'
+        '/-- `S` of `curr_line.text.startswith(S)` in make_text_region_text -/\n'
+        f'def quoteStart : Char := {ch(q_start)}\n\n'
+        '/-- `S` of `line_text[-2] != S` in make_line_text -/\n'
+        f'def detachBlank : List Char := {cl(detach_blank)}\n\n'
+        "/-- the constant pieces of `f' {line_text[-1]} '` in make_line_text -/\n"
+        f'def detachPadBefore : List Char := {cl(pad_before)}\n'
+        f'def detachPadAfter : List Char := {cl(pad_after)}\n\n'
+        '/-- `S` of `line_text + S` in make_line_text (what follows a line that is not merged) -/\n'
+        f'def linePad : List Char := {cl(line_pad)}\n\n'
+        '/-- `S` of `curr_line.text[-1] == S` in line_ends_with_word_break -/\n'
+        f'def wordBreakHyphen : List Char := {cl(hyphen)}\n\n'
+        '/-- `N` = p/q of `pmi > N` in line_ends_with_word_break -/\n'
+        f'def pmiThreshold : Nat × Nat := ({pmi.numerator}, {pmi.denominator})\n\n'
+        '/-- default `word_break_chars` of make_line_text -/\n'
+        f'def defaultBreakMakeLineText : List Char := {cl(d_line)}\n\n'
+        '/-- default `word_break_chars` of make_text_region_text -/\n'
+        f'def defaultBreakMakeText : List Char := {cl(d_text)}\n\n'
+        '/-- default `word_break_char` of merge_lines -/\n'
+        f'def defaultMergeWordBreak : List Char := {cl(d_wb)}\n\n'
+        '/-- default `remove_word_break` of merge_lines -/\n'
+        f'def defaultMergeRemove : Bool := {tr.lean_bool(d_remove)}\n\n'
+        'end Pagexml.Generated.C16\n')
+    return {'PagexmlModel/Generated/C16.lean': body}
 
 
 def mk_lines(specs: List[Dict[str, Any]]):
@@ -43,9 +117,30 @@ def specs_of(texts: List[Optional[str]], parent: Optional[str] = 'tr') -> List[D
     return [{'id': f'l{i}', 'parent': parent, 'text': t} for i, t in enumerate(texts)]
 
 
-def eff_break(B: str, det_spec) -> str:
+def eff_break(B: Optional[str], det_spec) -> str:
+    """the break characters in effect in make_text_region_text: the detector's own, else the ones passed, else
+    (B is None: called without word_break_chars) the default the function declares (read with inspect, for
+    the oracle only — the model gets null and uses the regenerated default)"""
     wbd = make_detector(det_spec)
-    return ''.join(sorted(wbd.word_break_chars)) if wbd is not None else B
+    if wbd is not None:
+        return ''.join(sorted(wbd.word_break_chars))
+    return eff_B(_real()[1].make_text_region_text, B)
+
+
+def merge_defaults():
+    """(remove_word_break, word_break_char) defaults of merge_lines, for the oracle (public interface)"""
+    import inspect
+    ps = inspect.signature(_real()[1].merge_lines).parameters
+    return ps['remove_word_break'].default, ps['word_break_char'].default
+
+
+def merge_kw(inp: Dict[str, Any]) -> Dict[str, Any]:
+    kw = {}
+    if inp['remove'] is not None:
+        kw['remove_word_break'] = inp['remove']
+    if inp['wb'] is not None:
+        kw['word_break_char'] = inp['wb']
+    return kw
 
 
 def fake_decision(seed: int, B: str, prev_words: List[str], curr_words: List[str]):
@@ -94,7 +189,10 @@ class C16(Check):
                   'the two no-detector rules (lawful CharClass; exact up to the „-prefix rule, which is stated), '
                   'merge_lines text as a fold with the guarded hyphen drop, line_ends_with_word_break total. '
                   'The hull of merge_lines is a parameter (C09). horizontally_merge_lines and merge_textregions '
-                  '(geometry grouping + \' \'.join / sort by baseline) are not modelled')
+                  '(geometry grouping + \' \'.join / sort by baseline) are not modelled. The „ literals, the blanks of '
+                  'make_line_text, the hyphen / PMI threshold of line_ends_with_word_break and all defaults are '
+                  'regenerated from the source on every run (Generated/C16.lean, and Generated/C17.lean for the word '
+                  'model); the theorems hold for every value of them given the three relations C16_consts_*')
     assumptions = [
         'the class bits sent with every request (CPython) obey the three CharClass laws (checked per character)',
         'the hull of merge_lines is whatever parse_derived_coords returns (C09); here only "the same call on the '
@@ -104,6 +202,14 @@ class C16(Check):
     ]
     nontrivial_rule = ('distinct inputs; non-trivial = at least two non-empty lines, or a line list with a missing / '
                        'empty text among non-empty ones')
+
+    # ---------------------------------------------------------------- constants regenerated from the source
+    def translate(self):
+        """Generated/C16.lean, and Generated/C17.lean as well: the C16 model is built on the C17 model (word
+        splitting, word-break decision), so a run of C16 has to see the C17 constants of the tree it runs on"""
+        out = dict(generated_c17())
+        out.update(generated_c16())
+        return out
 
     # ---------------------------------------------------------------- generation
     def cases(self, rng: random.Random, tier: str) -> Iterable[Case]:
@@ -212,6 +318,41 @@ class C16(Check):
             for _ in range(40):
                 rows.append([rand_line(rng, '-', 8), True, rand_line(rng, '-', 8)])
             out.append(Case('wordbreak', {'wf': wf, 'rows': rows}, ['enum', 'random']))
+        # the real functions called WITHOUT word_break_chars / remove_word_break / word_break_char (None): their
+        # defaults apply; the model is sent null and uses the defaults regenerated from the source
+        P = DEFAULT_POOL
+        for texts in corpus:
+            out.append(Case('para', {'B': None, 'det': None, 'lines': specs_of(texts)},
+                            ['corpus', 'no-detector', 'default-break']))
+        for first in enum_strings('aB-=: ', '', 2):
+            out.append(Case('para_enum', {'B': None, 'alpha': 'aB-=: ', 'first': [first], 'n': 2},
+                            ['enum', 'pairs', 'no-detector', 'default-break']))
+        for _ in range(15 if quick else 150):
+            out.append(Case('para', {'B': None, 'det': None, 'lines': self._rand_specs(rng, P)},
+                            ['random', 'no-detector', 'default-break']))
+        for _ in range(3 if quick else 20):
+            B = rng.choice(BREAK_SETS)
+            es, ss = rng.sample(frag_e, 5), rng.sample(frag_s, 5)
+            vocab = es + ss + [e[:-1] for e in es if e] + [e + s for e in es for s in ss if rng.random() < 0.5]
+            tables = random_tables(rng, B, sorted(set(v for v in vocab if v)))
+            texts = [rng.choice(ss + ['x']) + ' y ' + rng.choice(es + ['z']) for _ in range(rng.randint(2, 6))]
+            out.append(Case('para', {'B': None, 'det': {'tables': tables}, 'lines': specs_of(texts)},
+                            ['random', 'table-detector', 'default-break']))
+        rows = []
+        for t in enum_strings('a- „=:', '', 3)[1:]:
+            for d, e, m in [(False, '', None), (True, 'a-', 'ab'), (True, 'a-', 'a-b'), (True, '', ''), (True, 'a', None)]:
+                rows.append([t, d, e, m])
+        out.append(Case('line_text', {'B': None, 'rows': rows}, ['enum', 'default-break']))
+        for texts in mcorpus:
+            for remove, wb in ((None, None), (True, None), (None, '='), (None, '-')):
+                out.append(Case('merge', {'remove': remove, 'wb': wb, 'lines': self._boxed(rng, texts)},
+                                ['corpus', 'default-break']))
+        for _ in range(10 if quick else 100):
+            k = rng.randint(0, 5)
+            texts = [rng.choice([None, '', rand_line(rng, P, 6), rand_line(rng, P, 6) + rng.choice(P),
+                                 rng.choice('abBé1-. ') + rand_line(rng, P, 4)]) for _ in range(k)]
+            out.append(Case('merge', {'remove': rng.choice([None, True, True]), 'wb': None,
+                                      'lines': self._boxed(rng, texts)}, ['random', 'default-break']))
         return out
 
     @staticmethod
@@ -262,7 +403,7 @@ class C16(Check):
         lines, _regions = mk_lines(specs)
 
         def f():
-            text, ranges = ph.make_text_region_text(lines, word_break_chars=B, wbd=wbd)
+            text, ranges = ph.make_text_region_text(lines, wbd=wbd, **wbc_kw(B))
             return {'text': text, 'ranges': canon(ranges)}
         return call(f)
 
@@ -276,7 +417,7 @@ class C16(Check):
         if k == 'para_fake':
             B, seed = case.input['B'], case.input['seed']
 
-            def fake(curr_words, prev_words, wbd=None, word_break_chars='-', debug=False):
+            def fake(curr_words, prev_words, wbd=None, word_break_chars=None, debug=False):
                 d = fake_decision(seed, B, prev_words, curr_words)
                 return d[0], d[1]
             with mock.patch.object(ts, 'determine_word_break', fake):
@@ -286,7 +427,7 @@ class C16(Check):
             outs = []
             for t, d, e, m in case.input['rows']:
                 line = pdm.PageXMLTextLine(doc_id='l', text=t)
-                outs.append(call(ph.make_line_text, line, d, e, m, word_break_chars=B))
+                outs.append(call(ph.make_line_text, line, d, e, m, **wbc_kw(B)))
             return outs
         if k == 'wordbreak':
             from collections import Counter
@@ -303,7 +444,7 @@ class C16(Check):
             from pagexml.model.coords import parse_derived_coords
 
             def f():
-                m = ph.merge_lines(lines, remove_word_break=case.input['remove'], word_break_char=case.input['wb'])
+                m = ph.merge_lines(lines, **merge_kw(case.input))
                 return {'text': m.text, 'coords': canon(m.coords.points)}
             r = call(f)
             r['hull'] = call(lambda: canon(parse_derived_coords(lines).points))
@@ -448,7 +589,7 @@ class C16(Check):
                         one, [o])
                 if k == 'para' or k == 'para_enum':
                     if det is None:
-                        self._no_detector_rules(ne, ranges, text, B, bad, one, o)
+                        self._no_detector_rules(ne, ranges, text, Bw, bad, one, o)
         elif k == 'merge':
             specs = case.input['lines']
             texts = [s.get('text') for s in specs]
@@ -459,15 +600,17 @@ class C16(Check):
                     bad('merge-raises', f'merge_lines raised {out["err"]} on texts {texts}', case, out)
                 return fs
             exp = ''
-            wb = case.input['wb']
+            d_remove, d_wb = merge_defaults()
+            wb = case.input['wb'] if case.input['wb'] is not None else d_wb
+            remove = case.input['remove'] if case.input['remove'] is not None else d_remove
             for t in texts:
                 if not t:
                     continue
-                if case.input['remove'] and exp and exp.endswith(wb) and t[0].islower():
+                if remove and exp and exp.endswith(wb) and t[0].islower():
                     exp = exp[:-1]
                 exp += t
             if out['ok']['text'] != exp:
-                bad('merge-text', f'merge_lines({texts}, remove={case.input["remove"]}, {wb!r}).text = '
+                bad('merge-text', f'merge_lines({texts}, remove={remove}, {wb!r}).text = '
                                   f'{out["ok"]["text"]!r}, expected {exp!r}', case, out)
             if 'ok' in out['hull'] and out['ok']['coords'] != out['hull']['ok']:
                 bad('merge-coords', 'merge_lines coords are not the hull of the lines\' coordinates', case, out)
